@@ -42,7 +42,7 @@ def serKey (ks : KeyState Bytes) : Bytes :=
   frList [ks.label, serCmd ks.cmd,
           frList (ks.inputs.map fun pv => fr pv.1 ++ fr (serOpt pv.2)),
           frList (ks.outs.map serOutDef),
-          frList (ks.deps.map serOH),
+          frList (ks.deps.map fun d => fr d.1 ++ fr (serOH d.2)),
           frList (ks.fp.map fun kv => fr kv.1 ++ fr kv.2),
           ks.plat]
 
